@@ -44,6 +44,8 @@ class AuditEntry:
     func: str
     key: str
     reason: str
+    props: Optional[List[str]] = None  # restrict to these properties (None = any)
+    count: int = 1  # how many alpha-equivalent sites in that function it covers
     used: int = 0
 
 
@@ -52,12 +54,12 @@ def load_audit(path: Optional[str] = None) -> List[AuditEntry]:
     if not os.path.exists(path):
         return []
     data = json.load(open(path))
-    return [AuditEntry(e["rule"], e["func"], e["key"], e["reason"]) for e in data["exceptions"]]
+    return [AuditEntry(e["rule"], e["func"], e["key"], e["reason"], e.get("properties"), int(e.get("count", 1))) for e in data["exceptions"]]
 
 
 @dataclass
 class KnownEntry:
-    prop: str
+    props: List[str]
     rule: str
     func: str
     key: str
@@ -67,7 +69,7 @@ class KnownEntry:
 
 def load_known(path: Optional[str] = None):
     """known_findings.txt:
-    known: property=<id> rule=<rule> func=<qualname> key=<key> :: <what fails>
+    known: property=<id>[,<id>] rule=<rule> func=<qualname> key=<key> :: <what fails>
     fixed: property=<id> <commit> <what failed>      (suppresses nothing)"""
     path = path or os.path.join(VERIF, "known_findings.txt")
     known: List[KnownEntry] = []
@@ -79,35 +81,40 @@ def load_known(path: Optional[str] = None):
         if line.startswith("fixed:"):
             fixed.append(line)
         elif line.startswith("known:"):
-            head, _, what = line[len("known:"):].partition(" :: ")
+            head, _, what = line[len("known:"):].partition(" :: witness=")
             parts = {}
-            # key= is last and may contain spaces
             pre, _, key = head.partition(" key=")
             for tok in pre.split():
                 if "=" in tok:
                     k, v = tok.split("=", 1)
                     parts[k] = v
-            known.append(KnownEntry(parts.get("property", ""), parts.get("rule", ""), parts.get("func", ""), key.strip(), what.strip()))
+            known.append(KnownEntry(parts.get("property", "").split(","), parts.get("rule", ""), parts.get("func", ""), key.strip(), "witness=" + what.strip()))
     return known, fixed
 
 
 def triage(obs: List[Ob], prop: str, audit: List[AuditEntry], known: List[KnownEntry]) -> None:
+    """violation -> known (listed for this property) or audited (one site each);
+    every entry covers at most `count` alpha-equivalent sites, so an additional
+    site with the same text is still reported."""
     for o in obs:
         if o.state != "violation":
             continue
+        hit = False
+        for k in known:
+            if k.rule == o.rule and k.func == o.func and k.key == o.key and (not prop or prop in k.props) and k.used < 1:
+                o.state = "known"
+                o.reason = k.what
+                k.used += 1
+                hit = True
+                break
+        if hit:
+            continue
         for a in audit:
-            if a.rule == o.rule and a.func == o.func and a.key == o.key:
+            if a.rule == o.rule and a.func == o.func and a.key == o.key and (a.props is None or not prop or prop in a.props) and a.used < a.count:
                 o.state = "audited"
                 o.reason = a.reason
                 a.used += 1
                 break
-        else:
-            for k in known:
-                if k.rule == o.rule and k.func == o.func and k.key == o.key and (k.prop == prop or not k.prop):
-                    o.state = "known"
-                    o.reason = k.what
-                    k.used += 1
-                    break
 
 
 def summarize(obs: List[Ob]) -> Dict[str, int]:
